@@ -228,6 +228,12 @@ def run(ctx):
             ctx.cov["traces_validated_against_impl"] = len(lines) - len(mism)
             if mism:
                 ctx.ties_broken.append(f"correspondence:utf8/topic model differs from implementation on {len(mism)} inputs, first (shortest): {min(mism, key=lambda m: len(m[1]))}")
+    # request level: the same rules applied by the operations to every string of a request (user properties, content type, response topic),
+    # also when other valid properties stand next to the ill-formed one; through the real client, against the Lean Validate model and an
+    # independent oracle
+    import validate_check
+    found = validate_check.run(ctx, 400 if ctx.tier == "quick" else 20000, focus=True) or found
+    ctx.cov["rule"] += "; plus requests through the real client (publish / subscribe with several properties, at most one ill-formed string among them): accepted iff every string is well-formed (independent oracle) and exactly as the Lean request-validation model says"
     report_broken_ties(ctx, found)
     if ctx.tier == "thorough" and not ctx.ties_broken:
         for m, msg in leanchecker(ctx.lean.get("modules", [])):
